@@ -435,7 +435,6 @@ theorem instantiate_inv {v : Variant} {now : Nat} {funds : List Coin} {limit : N
   · -- merkle
     simp only [instantiate] at h
     simp only [↓ofBool_bind_ok, bind_ok, pure_ok] at h
-    simp only [beq_self_eq_true, beq_iff_eq, reduceCtorEq, ↓reduceIte] at h
     obtain ⟨_, pay, _, _, hv, _, hs⟩ := h
     subst hs
     have hv' := validateStages_spec hv
